@@ -335,3 +335,61 @@ def _reg_scenarios():
 
 
 _reg_scenarios()
+
+
+# --------------------------------------------------------------------------- capture key (name without width suffix)
+RAS = "jasm.global_definitions.remove_access_suffix"
+SUFFIXES = ("64", "32", "16", "8h", "8l", "8H", "8L")
+
+
+@scenario("captures:key", RAS, ["C05"],
+          doc="the key under which a register capture is registered and looked up is the name without its width suffix -- for every base name")
+def capture_key():
+    """remove_access_suffix(base + '.' + suffix) == base for every dot-free capture name base (structured string: the base is a
+    variable over &[^.]*), for bases that themselves contain dots (base = V.W), and name unchanged when the last
+    dot-separated part is not a width; plus concrete bases whose last characters occur in the suffix (digits, l, h, '.')."""
+    ensure()
+    from vf import sstr
+    obs: List[Ob] = []
+    f = J.gd.remove_access_suffix
+    shapes = []
+    for suf in SUFFIXES:
+        shapes.append((f"V.{suf}", lambda suf=suf: sstr.var("V", "&[^.]*") + sstr.lit("." + suf), lambda: sstr.var("V", "&[^.]*")))
+        shapes.append((f"V.W.{suf}", lambda suf=suf: sstr.var("V", "&[^.]*") + sstr.lit(".") + sstr.var("W", "[^.]+") + sstr.lit("." + suf),
+                       lambda: sstr.var("V", "&[^.]*") + sstr.lit(".") + sstr.var("W", "[^.]+")))
+    shapes.append(("V", lambda: sstr.var("V", "&[^.]*"), lambda: sstr.var("V", "&[^.]*")))
+    shapes.append(("V.other", lambda: sstr.var("V", "&[^.]*") + sstr.lit(".other"), lambda: sstr.var("V", "&[^.]*") + sstr.lit(".other")))
+    for sid, mk, want in shapes:
+        try:
+            run = sym_run(lambda: f(pattern_name=mk()))
+        except Exception as e:   # noqa
+            obs.append(simple_ob(f"remove_access_suffix:{sid}:RUN", RAS, "RUN", "symbolic execution completes", None, P, detail=f"unsupported: {e}"))
+            continue
+        for i, p in enumerate(run.paths):
+            base = f"remove_access_suffix:{sid}:p{i}"
+            if p.kind == "exc":
+                obs.append(simple_ob(base + ":EXC", RAS, "EXC", "no exception", False, P, detail=repr(p.value), witness="exc"))
+                continue
+            pyvc.CUR = run.ctx
+            try:
+                w = want()
+                got = p.value
+                ok = isinstance(got, str) and sstr.SymStr(got).payload == sstr.SymStr(w).payload if isinstance(got, str) else False
+            finally:
+                pyvc.CUR = None
+            obs.append(simple_ob(base + ":POST", RAS, "POST", f"the key of {sid} is the name without the width suffix (the name itself when there is none)",
+                                 ok, P, detail=run.ctx.table.show(str(got)) if isinstance(got, str) else repr(got), witness=sid))
+    # concrete representatives: last characters of the base occur in '.' + suffix
+    bases = ["&genreg", "&genreg-1", "&genreg-6", "&genreg-2", "&genreg-3", "&genreg-4", "&genreg-8", "&indreg-1", "&x.y", "&l", "&h", "&a8", "&r16", "&g."]
+    for b in bases:
+        for suf in SUFFIXES + ("other", "1", ""):
+            nm = b + "." + suf if suf else b
+            try:
+                got = f(pattern_name=nm)
+            except Exception as e:  # noqa
+                got = repr(e)
+            obs.append(simple_ob(f"remove_access_suffix:concrete:{nm}:POST", RAS, "POST", f"key of {nm!r} is {clean(nm)!r}", got == clean(nm), P,
+                                 detail=repr(got), witness=f"{nm} -> {got}",
+                                 replay={"kind": "call", "target": "jasm.global_definitions:remove_access_suffix", "kwargs": {"pattern_name": nm},
+                                         "expect": clean(nm)}))
+    return obs
